@@ -10,11 +10,11 @@ const { norm } = require('../oracles/erase')
 
 async function build (tier) {
   // quick tier: in family B a second deviation is only taken as (statement ctx x expression ctx) pair
-  const r = F.all(tier, { families: ['A', 'B', 'C', 'G', 'M', 'S', 'P', 'T', 'H', 'Q', 'R'], B: tier === 'thorough' ? {} : { pairs: 'ctx-only' }, H: { L: 3 } })
+  const r = F.all(tier, { families: ['A', 'B', 'C', 'G', 'M', 'S', 'P', 'T', 'H', 'Q', 'R', 'N', 'L'], B: tier === 'thorough' ? {} : { pairs: 'ctx-only', ops: F.REP_OPS.slice(0, 6) }, H: { L: 3 }, C: tier === 'thorough' ? {} : { noDepth3: true } })
   return {
     leaves: r.leaves,
     stats: r.stats,
-    bound: { deviations_k: tier === 'thorough' ? 3 : 2, nesting_depth: 2, atoms: tier === 'thorough' ? G.ATOMS_T.length : G.ATOMS_Q.length, envs: 'baseline + one-at-a-time deviations of every variable the program mentions + 3 pairs' },
+    bound: { deviations_k: tier === 'thorough' ? 3 : 2, nesting_depth: tier === 'thorough' ? 3 : 2, atoms: tier === 'thorough' ? G.ATOMS_T.length : G.ATOMS_Q.length, envs: 'baseline + one-at-a-time deviations of every variable the program mentions + 3 pairs' },
     alphabets: { schemas: G.SCHEMAS.length, atoms: tier === 'thorough' ? G.ATOMS_T : G.ATOMS_Q, exprctx: G.EXPRCTX.length, stmtctx: Object.keys(G.STMTCTX).length, scopes: Object.keys(G.SCOPES), configs: F.CONFIGS, rep_ops: (tier === 'thorough' ? F.REP_OPS : F.REP_OPS_Q).map((o) => o.tpl) }
   }
 }
@@ -53,8 +53,8 @@ async function check (leaf, resps, ctx) {
   }
   const relax = r.parseIn.ast ? X.hasMultiSubstTemplate(norm(r.parseIn.ast)) : false
   let envs = X.envVariants(code, ctx.tier)
-  // quick tier: the context families (B, G, M) take the 5 most discriminating environments, A and C all of them
-  if (ctx.tier !== 'thorough' && leaf.fam !== 'A' && leaf.fam !== 'C') envs = envs.slice(0, 5)
+  // quick tier: the context families (B, G, M) take the 5 most discriminating environments (the generated families H, Q, R, N, L, T: 3), C: 7, A all of them
+  if (ctx.tier !== 'thorough' && leaf.fam !== 'A') envs = envs.slice(0, leaf.fam === 'C' ? 7 : 'HQRNLT'.includes(leaf.fam) ? 3 : 5)
   res.nontrivial = true
   let n = 0
   for (const spec of envs) {
